@@ -102,6 +102,14 @@ def case_map(rec, width, keys, kind, check_entries=True):
         rec.violation('cell-malformed', f'width {width}, keys {keys[:8]}: produced cell is not a valid Hashmap: {e}', 'case_map', args)
         return
     rec.trace()
+    # serialising is an observation: the map is unchanged and a second serialisation gives the same cell
+    try:
+        if dict(hm.map) != {k: want[k] for k in keys} or list(hm.map) != keys:
+            rec.violation('serialize-mutates-map', f'width {width}, keys {keys[:8]}: serialize() changed the map (entries or their order)', 'case_map', args)
+        elif hm.serialize().hash != cell.hash:
+            rec.violation('serialize-not-repeatable', f'width {width}, keys {keys[:8]}: a second serialize() gives another cell', 'case_map', args)
+    except Exception as e:
+        rec.violation('serialize-not-repeatable', f'width {width}, keys {keys[:8]}: second serialize() raised {exc_name(e)}: {e}', 'case_map', args)
     entries = [('parse', lambda: HashMap.parse(cell.begin_parse(), width, None, DESER[kind]))]
     if check_entries:
         entries += [
